@@ -272,7 +272,13 @@ def run_case(case, ctx):
                         mk.set_energy(1, E2[k])
                 else:
                     mk.elenergies = numpy.array([0.0, U.e_to_int(E2[k], "1/cm")])
-                mk.set_dipole(0, 1, [float(x) for x in dip2[k]])
+                if (case["seed"] // 18 + k) % 2 == 0:
+                    mk.set_dipole(0, 1, [float(x) for x in dip2[k]])
+                else:
+                    dm = numpy.array(mk.dmoments, dtype=float).copy()       # the dipole array replaced as a whole
+                    dm[0, 1, :] = dip2[k]
+                    dm[1, 0, :] = dip2[k]
+                    mk.dmoments = dm
             with qr.energy_units("1/cm"):
                 for a in range(N):
                     for b_ in range(a + 1, N):
@@ -287,6 +293,30 @@ def run_case(case, ctx):
                   dict(det, what="rebuilt after the molecules were changed", route=route))
         ctx.check("dipole==frenkel", float(numpy.max(numpy.abs(D4 - Dref4[numpy.ix_(idx, idx)]))), 1e-12 * float(numpy.max(numpy.abs(dip2))),
                   dict(det, what="rebuilt after the molecules were changed", route=route))
+        # --- a copy of the built aggregate (deepcopy, or save-and-load copy) whose molecules are changed and which is rebuilt: it follows its
+        #     OWN molecules; the original is not affected
+        dip3 = dip2 * -0.6 + 0.21
+        E3 = [e + 55.0 * (k + 1) for k, e in enumerate(E2)]
+        how_copy = ["deepcopy", "scopy"][(case["seed"] // 36) % 2]
+        with ctx.lib("copy of a built aggregate, changed and rebuilt (" + how_copy + ")"):
+            agc = agg.deepcopy() if how_copy == "deepcopy" else agg.scopy()
+            for k in range(N):
+                with qr.energy_units("1/cm"):
+                    agc.monomers[k].set_energy(1, E3[k])
+                agc.monomers[k].set_dipole(0, 1, [float(x) for x in dip3[k]])
+            agc.rebuild(mult=case["mult"])
+            H5 = numpy.array(agc.get_Hamiltonian().data, dtype=float)
+            D5 = numpy.array(agc.get_TransitionDipoleMoment().data, dtype=float)
+            sigs5 = [tuple(i for i, x in enumerate(s_) if x) for s_ in agc.elsigs]
+            H4b = numpy.array(agg.get_Hamiltonian().data, dtype=float)
+            D4b = numpy.array(agg.get_TransitionDipoleMoment().data, dtype=float)
+        ctx.require("band-order", sigs5 == sigs, dict(det, what="state order of the copy"))
+        st5, Href5, Dref5 = frenkel_model([U.e_to_int(e, "1/cm") for e in E3], J2 * U.E_FAC["1/cm"], dip3, mult)
+        ctx.check("hamiltonian==frenkel", float(numpy.max(numpy.abs(H5 - Href5[numpy.ix_(idx, idx)]))), tolH * 1.3, dict(det, what="copy of a built aggregate, changed and rebuilt", copy=how_copy))
+        ctx.check("dipole==frenkel", float(numpy.max(numpy.abs(D5 - Dref5[numpy.ix_(idx, idx)]))), 1e-12 * float(numpy.max(numpy.abs(dip3))),
+                  dict(det, what="copy of a built aggregate, changed and rebuilt", copy=how_copy))
+        ctx.check("hamiltonian==frenkel", float(numpy.max(numpy.abs(H4b - H4))), 0.0, dict(det, what="original aggregate after its copy was changed"))
+        ctx.check("dipole==frenkel", float(numpy.max(numpy.abs(D4b - D4))), 0.0, dict(det, what="original aggregate after its copy was changed"))
         nzJ = bool(numpy.any(Jint != 0))
         movable = mult == 1 or any(True for a in states for b in states if len(a) == 2 and len(b) == 2 and len(set(a) & set(b)) == 1 and
                                    Jint[next(iter(set(a) - set(b))), next(iter(set(b) - set(a)))] != 0)
